@@ -44,6 +44,39 @@ fn amplifier(name: &str) -> bool {
     matches!(name, "range" | "cross" | "zip" | "push" | "push_front" | "join" | "concat")
 }
 
+/// The property bounds nesting at 64 (resource exhaustion is out of scope): cut the stream
+/// where a 65th bracket would be opened (brackets inside strings do not count).
+fn cap_nesting(data: &mut Vec<u8>, max: usize) {
+    let mut depth = 0usize;
+    let mut in_string = false;
+    let mut escaped = false;
+    for i in 0..data.len() {
+        let c = data[i];
+        if in_string {
+            if escaped {
+                escaped = false;
+            } else if c == b'\\' {
+                escaped = true;
+            } else if c == b'"' {
+                in_string = false;
+            }
+            continue;
+        }
+        match c {
+            b'"' => in_string = true,
+            b'[' | b'{' => {
+                if depth == max {
+                    data.truncate(i);
+                    return;
+                }
+                depth += 1;
+            }
+            b']' | b'}' => depth = depth.saturating_sub(1),
+            _ => {}
+        }
+    }
+}
+
 fn mutate(rng: &mut Rng, data: &mut Vec<u8>, other: &[u8]) -> &'static str {
     if data.is_empty() {
         data.push(*rng.pick(ALPHABET));
@@ -380,6 +413,11 @@ impl Property for C05 {
                     3 => case.opts.push(vec!["--select".into(), "(parse .s)=x".into()]),
                     _ => case.opts.push(vec!["--select".into(), format!("{text}=x")]),
                 }
+            }
+        }
+        for p in case.pieces.iter_mut() {
+            if p.kind == Kind::Raw {
+                cap_nesting(&mut p.bytes.0, 64);
             }
         }
         let len = case.stream().len();
